@@ -32,6 +32,14 @@ FLOAT_SAMPLES = (0.0, 2.0 ** -53, 0.25, 0.5, 0.75, 1.0 - 2.0 ** -53)
 BITS_COMPLETE = 12
 
 
+def random_module(mod):
+    """The module whose draw functions are substituted: the one the code under test imported as `random`, else
+    the standard library's."""
+    import random as _r
+    r = getattr(mod, "random", None)
+    return r if getattr(r, "randrange", None) is not None and hasattr(r, "Random") else _r
+
+
 class Draw:
     """One observed request: fn, normalised args, the outcome domain, the outcome chosen."""
     __slots__ = ("fn", "args", "count", "index", "returned", "domain", "error", "sampled")
@@ -145,10 +153,22 @@ class ScriptedRandom:
         if self._saved is not None:
             raise HarnessError("ScriptedRandom is not re-entrant")
         saved = {}
+        self._aliases = []
         try:
             for name in SCRIPTED:
                 saved[name] = getattr(self.rmod, name)
                 setattr(self.rmod, name, getattr(self, name))
+            # the code under test may have bound the functions to names of its own (`from random import
+            # randrange`): those names are redirected too
+            import sys as _sys
+            for modname, mod in list(_sys.modules.items()):
+                if mod is None or not (modname == "eolib" or modname.startswith("eolib.")):
+                    continue
+                for k, v in list(vars(mod).items()):
+                    for name in SCRIPTED:
+                        if v is saved[name]:
+                            self._aliases.append((mod, k, v))
+                            setattr(mod, k, getattr(self, name))
             for name in UNSUPPORTED:
                 if hasattr(self.rmod, name):
                     saved[name] = getattr(self.rmod, name)
@@ -163,6 +183,9 @@ class ScriptedRandom:
     def __exit__(self, *exc):
         for k, v in self._saved.items():
             setattr(self.rmod, k, v)
+        for mod, k, v in getattr(self, "_aliases", []):
+            setattr(mod, k, v)
+        self._aliases = []
         self._saved = None
         return False
 
